@@ -377,6 +377,37 @@ TUS = [U + x for x in PAGES] + [U + "XMLUTF8Transcoder.cpp", U + "TransService.c
                                "src/xercesc/framework/XMLRecognizer.cpp"]
 
 
+def truncation_rule(rep):
+    from ..engines import guard
+    rep.rule("C05.e", "no silent truncation: XMLReader::xcodeMoreChars reports 'no more characters' (return 0) only directly behind "
+             "the test that the raw byte buffer is empty — when undecoded bytes are left and the stream is exhausted it must raise an "
+             "error instead (a truncated multi-byte sequence at the end of the input is illegal, not ignorable)")
+    g = core.run_xa([os.path.join(core.REPO, "src/xercesc/internal/XMLReader.cpp")], cfg=r"^XMLReader::xcodeMoreChars$", flat=False)
+    cfg = guard.Cfg(g.cfg("XMLReader::xcodeMoreChars"))
+    n = 0
+    for bid, i, el in cfg.elements():
+        if el.get("ret") != ["i", 0]:
+            continue
+        n += 1
+        bad = []
+        for p in cfg.preds[bid]:
+            pb = cfg.blocks[p]
+            t = pb.get("term")
+            if not t or t.get("cond") is None or len(pb["succ"]) != 2:
+                bad.append("unconditional")
+                continue
+            k = pb["succ"].index(bid)
+            c = t["cond"]
+            ok = k == 0 and c[0] == "b" and c[1] == "==" and c[2] == ["f", "XMLReader::fRawBytesAvail"] and c[3] == ["i", 0]
+            if not ok:
+                bad.append(core.sx_str(c))
+        rep.ob("C05.e", "xcodeMoreChars@return0:%d" % n, not bad, "reached only when the raw buffer is empty" if not bad else
+               "xcodeMoreChars also returns 'no more characters' behind %s: bytes of an incomplete character at the end of the input are "
+               "dropped without any error" % bad, "%s:%s" % (cfg.file, el.get("l")))
+    if n == 0:
+        raise AnalysisBroken("xcodeMoreChars has no end-of-input return (idiom changed)")
+
+
 def run(rep):
     tus = [os.path.join(core.REPO, t) for t in TUS]
     f = core.run_xa(tus, tables=r"^g(From|To)Table|^gUTF|^gFirstByteMark$|^XMLUni::fg\w*Encoding|^gEncodingNameMap$|^XMLRecognizer::fg",
@@ -393,6 +424,7 @@ def run(rep):
     from . import C12
     C12.eaten_rule(rep, lf, "C05.d")
     rep.units.update(os.path.relpath(t, core.REPO) for t in lf.tus)
+    truncation_rule(rep)
     rep.undecided += ["the decoding/encoding code itself (second-byte ranges for E0/ED/F0/F4 leads, surrogate pairing, "
                       "block-boundary deferral, UTF-16/UCS-4 loops, ICU converters, BOM/declaration reconciliation): value-level, not applicable"]
     rep.assumptions += ["reference code pages: python's cp037/cp1140/cp1252 codecs (independent of the repository)",
